@@ -363,4 +363,36 @@ def trailerLoop (fx : Bool) : List (List UInt8) → Bool → Except Raised Unit
 
 def trailerFinish (fx : Bool) (lines : List (List UInt8)) : Except Raised Unit := trailerLoop fx lines false
 
+/-! ### Basic Authorization: the decision sequence of `auth_basic.basic_auth` -/
+
+/-- what an independent reading of the `Authorization` header finds -/
+structure BasicView where
+  /-- the header is present -/
+  present : Bool
+  /-- it contains a space (`auth_header.split(' ', 1)` unpacks) -/
+  hasSpace : Bool
+  /-- `scheme.lower() == 'basic'` -/
+  schemeBasic : Bool
+  /-- `params.encode('ascii')` succeeds -/
+  ascii : Bool
+  /-- outcome of `base64.b64decode` (stdlib, a contract): `none` = decoded, `some e` = raised `e` -/
+  b64 : Option Exc
+  /-- the decoded text contains a colon (`decoded_params.split(':', 1)` unpacks) -/
+  hasColon : Bool
+  /-- `checkpassword(realm, username, password)` -/
+  passwordOk : Bool
+  deriving DecidableEq, Repr
+
+/-- status of a request to a `tools.auth_basic` resource -/
+def basicAuth (v : BasicView) : Nat :=
+  if !v.present then 401
+  else if !v.hasSpace then catchHand .basicB64 .ValueError
+  else if !v.schemeBasic then 401
+  else if !v.ascii then catchHand .basicB64 .UnicodeEncodeError
+  else match v.b64 with
+    | some e => catchHand .basicB64 e
+    | none =>
+      if !v.hasColon then catchHand .basicB64 .ValueError
+      else if v.passwordOk then 200 else 401
+
 end CpModel.Parse
